@@ -270,6 +270,10 @@ func runC16(env *Env, s Scenario) {
 			if !env.Call("Open", func() { openErr = tr.Open() }) || openErr != nil {
 				return
 			}
+			// the caller keeps the slices Read returned and looks at them only at the end (a
+			// transport that recycles its buffer would change them under its feet)
+			var kept [][]byte
+			defer func() { got = bytes.Join(kept, nil) }()
 			// writer
 			wdone := make(chan struct{})
 			go func() {
@@ -291,6 +295,7 @@ func runC16(env *Env, s Scenario) {
 			for len(got) < len(fromSrv) {
 				b, err := tr.Read()
 				got = append(got, b...)
+				kept = append(kept, b)
 				if err != nil {
 					lastReadErr = err
 					if sc.CloseKind == "peer-at-once" {
